@@ -1,7 +1,7 @@
 (* C17 -- entry points evaluated by py/checks/C17.py (vm_compute).  Depends on
    definition files only (no proof file, no generated file). *)
 From PyRTL Require Export Analysis.Timing Analysis.Paths Analysis.Fanout Analysis.TimingOrd.
-From Coq Require Import Floats.
+From Coq Require Import PrimFloat SpecFloat FloatOps Uint63.
 
 Fixpoint net_index (ns : list net) (n : net) (i : Z) : Z :=
   match ns with
